@@ -330,16 +330,68 @@ def _hashable(x):
         return False
 
 
-def build_ops(j):
+def build_ops(j, objs=()):
+    """evaluate an operator expression; `{'use': i}` is the OBJECT bound by the i-th def step of
+    the program (the very same Python object, whatever has been done with it in between)"""
     if 'leaf' in j:
         return build_spec(j['leaf'])
+    if 'use' in j:
+        return objs[j['use']]
     if 'and' in j:
-        a, b = build_ops(j['and'][0]), build_ops(j['and'][1])
+        a, b = build_ops(j['and'][0], objs), build_ops(j['and'][1], objs)
         return a & b
     if 'or' in j:
-        a, b = build_ops(j['or'][0]), build_ops(j['or'][1])
+        a, b = build_ops(j['or'][0], objs), build_ops(j['or'][1], objs)
         return a | b
-    return ~build_ops(j['inv'])
+    return ~build_ops(j['inv'], objs)
+
+
+def inline_ops(j, defs):
+    """the operator expression with every `use i` replaced by the (inlined) expression of def i:
+    the constructor-built tree the object denotes"""
+    if 'leaf' in j:
+        return j
+    if 'use' in j:
+        return defs[j['use']]
+    if 'inv' in j:
+        return {'inv': inline_ops(j['inv'], defs)}
+    k = 'and' if 'and' in j else 'or'
+    return {k: [inline_ops(j[k][0], defs), inline_ops(j[k][1], defs)]}
+
+
+def prog_defs(prog):
+    """inlined expression of every def step, in order"""
+    defs = []
+    for st in prog:
+        if 'def' in st:
+            defs.append(inline_ops(st['def'], defs))
+    return defs
+
+
+def run_prog(prog):
+    """a straight-line program: `x_n = <operator expression over leaves and earlier x_i>` and
+    `glom(target, Match(x_i))` / `glom(target, x_i)` statements, executed in order.  One entry per
+    executed statement: None for a def that succeeded, {'ctor': cls} for a def that raised (the
+    program ends there), the observation for an evaluation."""
+    import glom
+    objs = []
+    out = []
+    for st in prog:
+        if 'def' in st:
+            try:
+                objs.append(build_ops(st['def'], objs))
+            except Exception as e:
+                out.append({'ctor': type(e).__name__})
+                break
+            out.append(None)
+        else:
+            spec = objs[st['eval']]
+            t = dec_v(st['target'])
+            if st.get('bare'):
+                out.append(observe(lambda: glom.glom(t, spec)))
+            else:
+                out.append(observe(lambda: glom.glom(t, glom.Match(spec))))
+    return out
 
 
 # ------------------------------------------------------------------ observation
@@ -388,6 +440,10 @@ def run_impl(case):
     out.pop('impl', None)
     out.pop('impl_bare', None)
     out.pop('impl_seq', None)
+    out.pop('impl_steps', None)
+    if case.get('prog') is not None:
+        out['impl_steps'] = run_prog(case['prog'])
+        return out
     try:
         if case.get('ops') is not None:
             spec = build_ops(case['ops'])
@@ -537,6 +593,113 @@ class Gen:
         else:
             right = self.optree(depth - 1, slots, atoms)
         return {k: [left, right]}
+
+
+    def optreex(self, depth, slots, atoms, k):
+        """an operator expression whose operands include OBJECTS THAT EXIST ALREADY (`use i`, i < k)"""
+        r = self.rng
+        j = r.randrange(k) if r.random() < 0.4 else k - 1
+        p = r.random()
+        if p < 0.5:
+            # the object is EXTENDED: `x & e`, `x | e` (flattening when x is a default-less And / Or)
+            op = r.choice(['and', 'or'])
+            return {op: [{'use': j}, self.optree(r.choice([0, 0, 1]), slots, atoms)]}
+        if p < 0.6:
+            op = r.choice(['and', 'or'])
+            return {op: [self.optree(r.choice([0, 0, 1]), slots, atoms), {'use': j}]}
+        if p < 0.68:
+            return {'inv': {'use': j}}
+        # anywhere in a larger expression, possibly several times / several objects
+        e = self.optree(max(depth, 1), slots, atoms)
+        sites = []
+
+        def walk(x):
+            for kk in ('and', 'or'):
+                if kk in x:
+                    for i in (0, 1):
+                        sites.append((x[kk], i))
+                        walk(x[kk][i])
+            if 'inv' in x:
+                sites.append((x, 'inv'))
+                walk(x['inv'])
+        walk(e)
+        for _ in range(r.choice([1, 1, 2])):
+            if sites:
+                holder, i = r.choice(sites)
+                holder[i] = {'use': r.randrange(k)}
+        if not has_use(e):
+            e = {r.choice(['and', 'or']): [{'use': j}, e]}
+        return e
+
+
+def has_use(j):
+    if 'use' in j:
+        return True
+    if 'leaf' in j:
+        return False
+    if 'inv' in j:
+        return has_use(j['inv'])
+    a, b = j.get('and') or j.get('or')
+    return has_use(a) or has_use(b)
+
+
+def prog_cases(rng, n):
+    """programs over spec OBJECTS: sub-trees are bound to names, evaluated on some targets (warm-up),
+    then combined with & | ~ into larger trees, which are evaluated, extended again, ...; the object
+    bound first is evaluated again at the end (an operator must not change its operands).  Every
+    evaluation is judged against the constructor-built tree its object denotes."""
+    made = 0
+    tries = 0
+    while made < n and tries < 20 * n:
+        tries += 1
+        g = Gen(rng)
+        atoms = []
+        slots = [0, 1, 2, 3]
+        rng.shuffle(slots)
+        ndefs = rng.choice([2, 2, 2, 3, 3, 4])
+        shape = []                       # ('def', expr) | ('eval', i)
+        for k in range(ndefs):
+            if k == 0:
+                e = g.optree(rng.choice([0, 1, 1, 1, 2]), slots, atoms)
+            else:
+                e = g.optreex(rng.choice([1, 2]), slots, atoms, k)
+            shape.append(('def', e))
+            for _ in range(rng.choice([0, 1, 1, 1, 2])):
+                shape.append(('eval', k if rng.random() < 0.8 else rng.randrange(k + 1)))
+        defs = prog_defs([{'def': e} for kind, e in shape if kind == 'def'])
+        if any(has_t_operand(d) or ops_outside(d)[0] for d in defs):
+            continue
+        try:
+            objs = []
+            for kind, e in shape:
+                if kind == 'def':
+                    objs.append(build_ops(e, objs))
+        except TypeError:
+            if rng.random() < 0.9:
+                continue
+        except Exception:
+            pass
+        ts = targets_for(atoms, rng, with_faults=rng.random() < 0.3) or [{'t': [jv(0)] * 4}]
+        free = [mode_free(d) for d in defs]
+
+        def ev(i, t):
+            st = {'eval': i, 'target': t}
+            if free[i] and rng.random() < 0.3:
+                st['bare'] = True
+            return st
+        prog = []
+        for kind, x in shape:
+            prog.append({'def': x} if kind == 'def' else ev(x, rng.choice(ts)))
+        final = list(ts)
+        rng.shuffle(final)
+        for t in final[:8]:
+            prog.append(ev(ndefs - 1, t))
+        # the operands afterwards: still the trees they were
+        for i in range(ndefs - 1):
+            for t in rng.sample(final, min(len(final), rng.choice([1, 2]))):
+                prog.append(ev(i, t))
+        made += 1
+        yield {'prog': prog}
 
 
 def has_t_operand(j):
